@@ -189,9 +189,9 @@ def run_once(s, r, sn, groups, prefix, extra_env=None, on_group_complete=None):
             expected = []
             for t in g:
                 m = sn.cmdmodes.get((t, cmd))
-                if m == "x":
+                if m == "x" or (m and m.startswith("x") and m[1:].isdigit()):
                     expected.append((cmd, t))
-                elif m == "nox" or (m is None and sn.fail_on_undefined):
+                elif m in ("nox", "noxlink") or (m is None and sn.fail_on_undefined):
                     failed = True
                     break
             t_end = time.time() + STALL
